@@ -33,7 +33,14 @@ let kind_arg q = match S.index_opt q '=' with
   | Some i -> (S.sub q 0 i, S.sub q (i + 1) (S.length q - i - 1))
   | None -> (q, "")
 
-let ids_of arg = if arg = "" then [] else L.map n_of_string (split_on '/' arg)
+(* a hash argument is <id>, or <letter><id>: a string derived from the hash of <id> that is NOT that hash (upper case, zeros
+   stripped, padded, ...; see harness/zz_verif/c04.go) - for the model simply a hash that is not stored *)
+let id_of_tok (t : string) : BinNums.coq_N =
+  if t <> "" && t.[0] >= 'a' && t.[0] <= 'z' then
+    n_of_zt (Z.add (Z.of_string "1000000000000")
+               (Z.add (Z.mul (Z.of_int 1000) (Z.of_string (S.sub t 1 (S.length t - 1)))) (Z.of_int (Char.code t.[0]))))
+  else n_of_string t
+let ids_of arg = if arg = "" then [] else L.map id_of_tok (split_on '/' arg)
 let int_opt x = try Some (z_of_zt (Z.of_string x)) with _ -> None
 let is_num x =
   (* what strconv.Atoi accepts: optional sign, then at least one decimal digit, nothing else, and the value fits a
@@ -74,8 +81,8 @@ let model_query (s : Store.store) (q : string) : string =
   let (k, arg) = kind_arg q in
   match k with
   | "X" -> "rows " ^ rows_string s
-  | "H" -> (match Query.get_by_hash s (n_of_string arg) with Some r -> "200 " ^ hdr_string r | None -> "404 ErrHeaderNotFound")
-  | "S" -> (match Query.get_by_hash s (n_of_string arg) with Some r -> "200 " ^ state_string r | None -> "404 ErrHeaderNotFound")
+  | "H" -> (match Query.get_by_hash s (id_of_tok arg) with Some r -> "200 " ^ hdr_string r | None -> "404 ErrHeaderNotFound")
+  | "S" -> (match Query.get_by_hash s (id_of_tok arg) with Some r -> "200 " ^ state_string r | None -> "404 ErrHeaderNotFound")
   | "L" -> (match Query.tip_longest s with Some r -> "200 " ^ state_string r | None -> "500 -")
   | "T" -> list_string state_string (sort_by_id (Query.tips s))
   | "R" ->
@@ -145,7 +152,7 @@ let spec_query (s : Store.store) (q : string) (obs : string) : (string * string)
   | "X" -> None
   | "H" | "S" ->
     let render = if k = "H" then hdr_string else state_string in
-    (match Store.by_hash s (n_of_string arg) with
+    (match Store.by_hash s (id_of_tok arg) with
      | Some r -> if obs = "200 " ^ render r then None else fail "lookup-wrong" ("got " ^ obs)
      | None -> if status obs = 404 then None else fail "lookup-wrong" ("absent, got " ^ obs))
   | "L" ->
